@@ -141,6 +141,16 @@ fn infer_call_target_type(
 }
 
 fn has_non_callable_member(db: &DbIndex, typ: &LuaType) -> bool {
+    has_non_callable_member_with_depth(db, typ, 0)
+}
+
+fn has_non_callable_member_with_depth(db: &DbIndex, typ: &LuaType, depth: u32) -> bool {
+    // A recursive alias (`---@alias A A | nil`) resolves to a union that contains itself.
+    const MAX_RECURSION_DEPTH: u32 = 10;
+    if depth >= MAX_RECURSION_DEPTH {
+        return false;
+    }
+
     let typ = get_real_type(db, typ).unwrap_or(typ);
     if typ.is_function() || typ.is_call() {
         return false;
@@ -152,22 +162,22 @@ fn has_non_callable_member(db: &DbIndex, typ: &LuaType) -> bool {
         }
         LuaType::TplRef(tpl) => tpl
             .get_constraint()
-            .is_some_and(|constraint| has_non_callable_member(db, constraint)),
+            .is_some_and(|constraint| has_non_callable_member_with_depth(db, constraint, depth + 1)),
         LuaType::StrTplRef(str_tpl) => str_tpl
             .get_constraint()
-            .is_some_and(|constraint| has_non_callable_member(db, constraint)),
+            .is_some_and(|constraint| has_non_callable_member_with_depth(db, constraint, depth + 1)),
         LuaType::Union(union) => union
             .into_vec()
             .iter()
-            .any(|t| has_non_callable_member(db, t)),
+            .any(|t| has_non_callable_member_with_depth(db, t, depth + 1)),
         LuaType::Intersection(intersection) => intersection
             .get_types()
             .iter()
-            .all(|t| has_non_callable_member(db, t)),
+            .all(|t| has_non_callable_member_with_depth(db, t, depth + 1)),
         LuaType::MultiLineUnion(union) => union
             .get_unions()
             .iter()
-            .any(|(t, _)| has_non_callable_member(db, t)),
+            .any(|(t, _)| has_non_callable_member_with_depth(db, t, depth + 1)),
         _ => true,
     }
 }
